@@ -36,10 +36,15 @@ import (
 func (c *Client) handleChannelUpdate(uh UpdateHandler, p map[wallet.BackendID]wire.Address, m ChannelUpdateProposal) {
 	ch, ok := c.channels.Channel(m.Base().ID())
 	if !ok {
-		if !c.cacheVersion1Update(uh, p, m) {
-			c.logChan(m.Base().ID()).WithField("peer", p).Error("received update for unknown channel")
+		if c.cacheVersion1Update(uh, p, m) {
+			return
 		}
-		return
+		// The opening of this channel may have completed, and released the
+		// cache, between the lookup above and the attempt to cache the update.
+		if ch, ok = c.channels.Channel(m.Base().ID()); !ok {
+			c.logChan(m.Base().ID()).WithField("peer", p).Error("received update for unknown channel")
+			return
+		}
 	}
 	pidx := ch.Idx() ^ 1
 	ch.handleUpdateReq(pidx, m, uh)
